@@ -1,5 +1,6 @@
 import Enc.Model.Json.CodecChoiceDec
 import Enc.Spec.Json.StdCodecChoiceDec
+import Enc.Spec.Json.DecDeviation
 import Enc.Driver.JsonCodec
 import Enc.Spec.Json.EmbedCycle
 /-!
@@ -612,21 +613,16 @@ def classes (env : Env) (t : TD) (v : Variant) : List String :=
   let ts := allTypes env t
   let isNullVar := (docFor env t v).hasNull
   let c1 := if embedCycleAny env t then ["jsonEmbeddedStructUnderConstruction"] else []
-  let c2 := if ts.any (fun x => match x with
-      | .struct _ => implPtrU env .uj x || implPtrU env .ut x
-      | _ => false) then ["jsonDecPromotedUnmarshalerOfUnnamedStruct"] else []
-  let c3 := if isNullVar && ts.any (fun x => implPtrU env .ut x && !implPtrU env .uj x &&
-      (match under env x with | .slice _ | .map .. => true | _ => false)) then ["jsonDecNullKeepsTextUnmarshalerContainer"] else []
-  let c4 := if isNullVar && ts.any (fun x => match under env x with
-      | .ptr e => isPtrKind (under env e)
-      | _ => false) then ["jsonNullNestedPointer"] else []
+  -- the class predicates are the definitions of Spec/Json/DecDeviation.lean (the hypotheses of `chooseDec_eq_std`)
+  let c2 := if ts.any (Enc.Spec.Json.DecDeviation.promotedUnm env) then ["jsonDecPromotedUnmarshalerOfUnnamedStruct"] else []
+  let c3 := if isNullVar && ts.any (Enc.Spec.Json.DecDeviation.nullKeepsTextContainer env)
+    then ["jsonDecNullKeepsTextUnmarshalerContainer"] else []
+  let c4 := if isNullVar && ts.any (Enc.Spec.Json.DecDeviation.nullNestedPointer env) then ["jsonNullNestedPointer"] else []
   let c5 := if ts.any (fun x => match under env x with
-      | .map k _ => implPtrU env .ut k && implPtrU env .uj k
+      | .map k _ => Enc.Spec.Json.DecDeviation.mapKeyBothUnm env k
       | _ => false) then ["jsonDecMapKeyPrefersUnmarshalText"] else []
-  let c6 := if isNullVar && ts.any (fun x => match x, under env x with
-      | .any _, _ => false
-      | _, .any dyn | _, .iface _ _ dyn => (match under env dyn with | .ptr e => isPtrKind (under env e) | _ => false)
-      | _, _ => false) then ["jsonDecNullNamedInterfaceHoldingPointer"] else []
+  let c6 := if isNullVar && ts.any (Enc.Spec.Json.DecDeviation.nullNamedIfaceHeld env)
+    then ["jsonDecNullNamedInterfaceHoldingPointer"] else []
   c1 ++ c2 ++ c3 ++ c4 ++ c5 ++ c6
 
 def run (d variant : String) : Option (String × String × String) := do
@@ -650,6 +646,9 @@ def runEq (d : String) : Option (String × String × String) := do
       let r := chooseDec env t a
       if expandDecD dep env r.2 r.1 == Enc.Spec.Json.StdCodecChoiceDec.stdDecD dep env t true then acc
       else acc ++ [toString dep ++ (if a then "a" else "n")]) acc) []
-  pure (String.intercalate "," bad, "", "")
+  -- second component: the hypotheses of `chooseDec_eq_std` (Props/C01CodecDec.lean) evaluated on this type
+  pure (String.intercalate "," bad,
+    "embedCycle=" ++ toString (Enc.Spec.Json.EmbedCycle.embedCycle env t) ++ " decDeviationFree=" ++
+      toString (Enc.Spec.Json.DecDeviation.decDeviationFree env t), "")
 
 end Enc.Driver.JsonCodecDec
